@@ -111,7 +111,7 @@ def gen_history(rng, n):
             if cls == "blank" and rng.random() < 0.4:
                 ops.append({"op": o, "name": name, "value": v, "cls": cls, "form": "escaped-blanks"})
             else:
-                ops.append({"op": o, "name": name, "src": rng.choice(NAMES), "cls": "copied", "form": rng.choice(["copy", "copy-brace"])})
+                ops.append({"op": o, "name": name, "src": rng.choice(NAMES), "cls": "copied", "form": rng.choice(["copy", "copy-brace", "copy-dq"])})
         elif k < 0.2:
             ops.append({"op": "assign", "name": name, "value": v, "cls": cls})
         elif k < 0.3:
@@ -153,6 +153,8 @@ def render_op(op, root, k):
             w = "$" + op["src"]
         elif form == "copy-brace":
             w = "${%s}" % op["src"]
+        elif form == "copy-dq":
+            w = '"$%s"' % op["src"]
         elif form == "escaped-blanks":
             w = op["value"].replace(" ", "\\ ")
         else:
@@ -181,9 +183,9 @@ def render_op(op, root, k):
 def op_kind(op):
     o = op["op"]
     if o in ("assign", "prefixed", "export"):
-        if op.get("form") in ("copy", "copy-brace"):
+        if op.get("form") in ("copy", "copy-brace", "copy-dq"):
             v = op.get("value", "")
-            return "%s:value=copied-from-a-variable:%s" % (o, "with-blank" if " " in v else "with-quote-character" if ("'" in v or '"' in v) else "empty" if v == "" else "plain")
+            return "%s:value=copied-from-a-variable%s:%s" % (o, "-in-double-quotes" if op.get("form") == "copy-dq" else "", "with-blank" if " " in v else "with-quote-character" if ("'" in v or '"' in v) else "empty" if v == "" else "plain")
         return "%s:value=%s%s" % (o, op["cls"], ":written-with-escaped-blanks" if op.get("form") == "escaped-blanks" else "")
     if o == "read":
         return "read:" + op.get("via", "here")
@@ -220,7 +222,7 @@ def judge(case):
         lines.append(render_op(op, root, k))
         o = op["op"]
         e = {"k": k}
-        if op.get("form") in ("copy", "copy-brace"):
+        if op.get("form") in ("copy", "copy-brace", "copy-dq"):
             op["value"] = m.get(op["src"])
         if o == "assign":
             m.assign(op["name"], op["value"])
